@@ -104,9 +104,9 @@ let cpp_command (toks : string list) : string =
      | Some (Inr _) -> "-3 " ^ off ^ " " ^ show_buf b
      | Some (Inl (d, o)) -> "0 " ^ show_u64 o ^ " " ^ show_buf d)
   | ["xsub"; nalloc; size; off; bits] ->
-    let na = int_of_string nalloc in show_span na (subspan (sp (zeros na) size off) (parse_u64 bits))
+    let na = int_of_string nalloc in show_span na (subspan_clamped (sp (zeros na) size off) (parse_u64 bits))
   | ["xsubb"; nalloc; size; off; nb] ->
-    let na = int_of_string nalloc in show_span na (subspan_bytes (sp (zeros na) size off) (parse_u64 nb))
+    let na = int_of_string nalloc in show_span na (subspan_bytes_clamped (sp (zeros na) size off) (parse_u64 nb))
   | ["xsub2"; nalloc; size; off; at; sb] ->
     let na = int_of_string nalloc in
     (match subspan2 (sp (zeros na) size off) (parse_u64 at) (parse_u64 sb) with Inr _ -> "-3" | Inl s' -> show_span na s')
